@@ -541,4 +541,71 @@ theorem tile_mem_getTiles {t : Tile} (ht : t ∈ tiles) {rF rL cF cL : ℤ} (h0 
     simp only [blockRect]
     apply max_lt <;> apply lt_min <;> linarith
 
+/-- `elevation` on a valid rectangle: it succeeds, returns the native grids, and every entry is
+the pixel of a tile (one of `get_tiles` of the block) at the same cell of the global lattice -/
+theorem elevation_spec (pix : Tile → ℕ → ℕ → ℤ) (r : Rect) (hv : Valid r) :
+    ∃ E, elevation pix r = .ok ((nativeGrids r).1, (nativeGrids r).2, E) ∧
+      E.size = (nativeGrids r).1.length * (nativeGrids r).2.length ∧
+      ∀ i, i < (nativeGrids r).1.length → ∀ j, j < (nativeGrids r).2.length →
+        ∃ t ∈ getTiles (blockRect (rF r) (rL r) (cF r) (cL r)),
+          InTile t (rF r - 1 + i) (cF r + j) ∧
+          E[i * (nativeGrids r).2.length + j]? =
+            some (pix t (rF r - 1 + i - rowOff t).toNat (cF r + j - colOff t).toNat) := by
+  have s := grids_shape r hv
+  have hg : nativeGrids r = (latsOf (rF r) (rL r), lonsOf (cF r) (cL r)) := nativeGrids_eq r
+  obtain ⟨m1, m2⟩ := min_max_latsOf s.rows_le
+  obtain ⟨m3, m4⟩ := min_max_lonsOf s.cols_le
+  have hts : ∀ t ∈ getTiles (blockRect (rF r) (rL r) (cF r) (cL r)), t ∈ tiles := by
+    intro t ht; unfold getTiles at ht; exact (List.mem_filter.mp ht).1
+  have hnd : (getTiles (blockRect (rF r) (rL r) (cF r) (cL r))).Nodup := by
+    unfold getTiles; exact (List.filter_sublist).nodup tiles_nodup
+  obtain ⟨E', f1, f2, f3⟩ := foldlM_spec pix _ _ _ _ s.rows_le s.cols_le _ hts hnd
+    (Array.replicate ((latsOf (rF r) (rL r)).length * (lonsOf (cF r) (cL r)).length) 0) (by simp)
+  have he : elevation pix r = .ok (latsOf (rF r) (rL r), lonsOf (cF r) (cL r), E') := by
+    unfold elevation
+    rw [hg]
+    simp only [m1, m2, m3, m4, block_eq, f1]
+  rw [hg]
+  refine ⟨E', he, by rw [f2]; simp, ?_⟩
+  intro i hi j hj
+  simp only at hi hj ⊢
+  have hi' := hi
+  have hj' := hj
+  rw [length_latsOf] at hi'
+  rw [length_lonsOf] at hj'
+  have b1 := s.rF_pos
+  have b2 := s.rL_le
+  have b3 := s.cF_nonneg
+  have b4 := s.cL_le
+  obtain ⟨t, ht, hin⟩ := tile_of_cell (rF r - 1 + i) (cF r + j) (by omega) (by omega) (by omega) (by omega)
+  have hm := tile_mem_getTiles ht b3 b4 (R := rF r - 1 + i) (C := cF r + j) (rF := rF r) (rL := rL r)
+    ⟨by omega, by omega⟩ ⟨by omega, by omega⟩ hin
+  exact ⟨t, hm, hin, (f3 i hi j hj).1 t hm hin⟩
+
+/-- the centre of lattice cell (R, C) lies in the half-open rectangle of tile `t` (the test of the
+destination mask) iff the cell belongs to the tile -/
+theorem centre_in_tile_iff (t : Tile) (ht : t ∈ tiles) (R C : ℤ) :
+    ((t.latMin : ℚ) ≤ rowCentre (R + 1) ∧ rowCentre (R + 1) < t.latMax ∧
+      (t.lonMin : ℚ) ≤ colCentre C ∧ colCentre C < t.lonMax) ↔ InTile t R C := by
+  obtain ⟨f1, f2, -⟩ := tiles_facts t ht
+  have c := rowOff_cast t
+  have d := colOff_cast t
+  have hq : (t.latMin : ℚ) = t.latMax - 50 := by
+    have : ((t.latMax - t.latMin : ℤ) : ℚ) = 50 := by rw [f1]; norm_num
+    push_cast at this; linarith
+  have hq' : (t.lonMax : ℚ) = t.lonMin + 40 := by
+    have : ((t.lonMax - t.lonMin : ℤ) : ℚ) = 40 := by rw [f2]; norm_num
+    push_cast at this; linarith
+  have e1 : ((t.latMin : ℚ) ≤ rowCentre (R + 1)) ↔ (((R : ℤ) : ℚ) + 1 / 2 ≤ ((rowOff t + 6000 : ℤ) : ℚ)) := by
+    unfold rowCentre; rw [dlat_eq]; push_cast; rw [c, hq]; constructor <;> intro h <;> linarith
+  have e2 : (rowCentre (R + 1) < (t.latMax : ℚ)) ↔ (((rowOff t : ℤ) : ℚ) < ((R : ℤ) : ℚ) + 1 / 2) := by
+    unfold rowCentre; rw [dlat_eq]; push_cast; rw [c]; constructor <;> intro h <;> linarith
+  have e3 : ((t.lonMin : ℚ) ≤ colCentre C) ↔ (((colOff t : ℤ) : ℚ) ≤ ((C : ℤ) : ℚ) + 1 / 2) := by
+    unfold colCentre; rw [dlon_eq, d]; constructor <;> intro h <;> linarith
+  have e4 : (colCentre C < (t.lonMax : ℚ)) ↔ (((C : ℤ) : ℚ) + 1 / 2 < ((colOff t + 4800 : ℤ) : ℚ)) := by
+    unfold colCentre; rw [dlon_eq]; push_cast; rw [d, hq']; constructor <;> intro h <;> linarith
+  rw [e1, e2, e3, e4, half_le_iff, half_lt_iff, half_le_iff', half_lt_iff']
+  unfold InTile
+  omega
+
 end Srtm
